@@ -51,7 +51,7 @@ Definition x_decompress (w : nat) (d : list cell) (n : N) : option (list (xT w))
 Definition x_cvs (w : nat) := cvs (xT w).
 Definition x_op (w : nat) := op (xT w).
 Definition x_per_page (w : nat) : N := PER_PAGE (N.of_nat w).
-Definition x_import (w : nat) (fmt vver : N) := cv_import (xT w) (N.of_nat w) fmt vver.
+Definition x_import (w : nat) (fmt vver k : N) := cv_import_k (xT w) (N.of_nat w) fmt vver k None.
 Definition x_step (w : nat) (fmt vver : N) :=
   cv_step (xT w) (N.of_nat w) (x_enc w) (x_dec w) (x_compress w) (x_decompress w) fmt vver.
 Definition x_collect (w : nat) :=
@@ -60,3 +60,43 @@ Definition x_regime (w : nat) := write_regime (xT w) (N.of_nat w).
 Definition x_real_stored_len (w : nat) := real_stored_len (xT w) (N.of_nat w).
 Definition x_vals {w} (l : list (xT w)) : list N := map x_val l.
 Definition x_mk_list (w : nat) (l : list N) : list (xT w) := map (mk_x w) l.
+
+(* ---- a digest of a whole run, computed identically by vm_compute and by the extracted OCaml code:
+        tools/cv_crosscheck.py compares the two (cross-check of the extraction, DESIGN.md 2.2) ---- *)
+Definition mix (h v : N) : N := (N.lxor h (v mod two64) * 1099511628211) mod two64.
+Definition mix_list (h : N) (l : list N) : N := fold_left mix l (mix h (len l)).
+
+Definition cverr_code (e : cverr) : N :=
+  match e with
+  | ECorruptedRegion => 1 | EUnexpectedIndex => 2 | EExpectVecToHaveIndex => 3 | EDecompressionMismatch => 4
+  | EWrongLength => 5 | EDifferentVersion => 6 | EDifferentFormat => 7 | EInvalidFormat => 8 | EUnderflow => 9
+  | EOverflow => 10 | EIo => 11 | EIndexTooHigh => 12 | EStampMismatch => 13
+  | ERawdb WriteOutOfBounds => 14 | ERawdb TruncateInvalid => 15
+  end.
+
+Definition x_obs_digest (w : nat) (h : N) (s : x_cvs w) (r : res cverr bool) : N :=
+  let h := mix h (match r with Ok false => 0 | Ok true => 1 | Panic => 2 | Err e => 3 + cverr_code e end) in
+  let h := mix (mix (mix h (cv_len s)) (cv_stamp s)) (s_stored_len s) in
+  let h := mix (mix (mix h (len (s_pushed s))) (x_real_stored_len w s)) (len (s_data s)) in
+  let h := mix_list h (map cell_byte (take HEADER_OFFSET (s_data s))) in
+  let h := mix_list h (pg_disk (s_pg s)) in
+  let h := match x_collect w s with
+           | Ok l => mix_list h (x_vals l)
+           | Err e => mix h (100 + cverr_code e)
+           | Panic => mix h 99
+           end in
+  let h := mix_list (mix h (len (s_prev_pushed s))) [s_prev_stored_len s; s_ssc s] in
+  match s_changes s with
+  | None => mix h 7
+  | Some dir => fold_left (fun h f => mix_list (mix h (fst f)) (snd f)) dir (mix h (8 + len dir))
+  end.
+
+Definition x_trace_digest (w : nat) (fmt vver k : N) (ops : list (x_op w)) : N :=
+  match x_import w fmt vver k [] [] with
+  | Ok s0 =>
+      fst (fold_left (fun hs o => let '(s', r) := x_step w fmt vver (snd hs) o in
+                                  (x_obs_digest w (fst hs) s' r, s'))
+                     ops (x_obs_digest w 14695981039346656037 s0 (Ok false), s0))
+  | Err e => 3 + cverr_code e
+  | Panic => 2
+  end.
